@@ -18,4 +18,4 @@ print("| seed | property | change (what still compiles and passes the suite) | c
 print("|------|----------|---------------------------------------------------|-----------|-----------------------------|---------------|")
 for r in rows:
     print("| " + " | ".join(str(x).replace("|", "/").replace("\n", " ") for x in r) + " |")
-print(f"\n{len(rows)} seeded changes; matrix of every seed against every check: `seeded/MATRIX.txt` (`tools/seed_matrix.sh`).")
+print(f"\n{len(rows)} seeded changes; matrix of every seed against every check: `seeded/MATRIX.txt` (`tools/seed_matrix.py`, in memory).")
